@@ -270,7 +270,29 @@ func checkC10(w *World) {
 			}
 			n2++
 			_, local := fa.X.(*ssa.Alloc)
-			w.check(P, "R10.2", fmt.Sprintf("store to the %s field in %s", role, fn.Name()), st.Pos(), local, map[bool]string{true: "written through the object under construction", false: "written through an existing cursor (" + describe(fa.X) + "): a node that is already part of the tree changes its identity — positions stop being stable and unique"}[local])
+			construct := fmt.Sprintf("store to the %s field of the object under construction in %s", role, fn.Name())
+			if !local {
+				// identified by what is written through, not by the name of the enclosing function
+				from := "of unknown origin"
+				backSlice(fa.X, func(v ssa.Value) bool {
+					if u, ok := v.(*ssa.UnOp); ok {
+						if fa2, ok := u.X.(*ssa.FieldAddr); ok {
+							if pt, ok := fa2.X.Type().Underlying().(*types.Pointer); ok && types.Identical(pt.Elem(), sf.T) {
+								if r := sf.roleOf(fa2.Field); r == "namespaces" || r == "attributes" || r == "children" {
+									from = "taken from a " + r + " list"
+									return false
+								}
+							}
+						}
+					}
+					if _, isParam := v.(*ssa.Parameter); isParam && from == "of unknown origin" {
+						from = "received as a parameter"
+					}
+					return true
+				})
+				construct = fmt.Sprintf("store to the %s field of an existing cursor %s", role, from)
+			}
+			w.check(P, "R10.2", construct, st.Pos(), local, map[bool]string{true: "written through the object under construction", false: "written through an existing cursor (" + describe(fa.X) + "): a node that is already part of the tree changes its identity — positions stop being stable and unique"}[local])
 		})
 	})
 	w.floor(P, "R10.2", 7)
@@ -309,7 +331,7 @@ func checkC10(w *World) {
 				return
 			}
 			n3++
-			w.check(P, "R10.3", fmt.Sprintf("%s of an existing %s list in %s", b.Name(), fromList, fn.Name()), c.Pos(), false, "cursor objects of another element's "+fromList+" list are copied into a new list: the same node object then sits in two elements' lists, its Parent() is the old owner and any later write to it affects both")
+			w.check(P, "R10.3", fmt.Sprintf("%s of an existing %s list into another list", b.Name(), fromList), c.Pos(), false, "cursor objects of another element's "+fromList+" list are copied into a new list: the same node object then sits in two elements' lists, its Parent() is the old owner and any later write to it affects both")
 		})
 	})
 	if n3 == 0 {
